@@ -22,9 +22,11 @@ Init == l = 1
 e == Rec[l]
 
 HasReply == "signed" \in DOMAIN e.reply
+HasMac == "macPresent" \in DOMAIN e.reply
 ReqAllowed ==
     /\ C13_EffectOk(e.r, e.p, e.effect)
     /\ HasReply => C13_ReplyOk(e.r, e.p, e.effect, e.reply)
+    /\ HasMac => C13_NoOracleOk(e.r, e.reply.macPresent)
 
 (* "... the client-side verifier accepts it and rejects any modified reply", for *)
 (* every message of a reply (a zone transfer is a sequence of messages, each     *)
